@@ -3,7 +3,7 @@
    only, faithful to the unchanged code: it re-uses the method models of Model.v, which take the
    pool as an argument and work on blocks of any capacity (a block carries its own b_cap, as a
    MemoryBlock carries m_data_end), so a block released to a foreign pool and handed out again
-   is filled up to ITS OWN size.  No theorems here: the proofs of Proofs.v fix one block size. *)
+   is filled up to ITS OWN size.  Theorems: ProofsHetero.v / ProofsMulti.v (c15_multi_* in Properties.v). *)
 From OlaBase Require Import Bytes.
 From Coq Require Import Arith.
 From C15 Require Import Model.
